@@ -138,6 +138,47 @@ def check_rep(ctx: Ctx, c: Dict[str, Any]) -> None:
                 bad("FlowFields.warp_image", f"image warped by the field given in {a} axes differs from ramp(x + w) by {float((out - expv)[ins].abs().max()):.3g}", frm=a)
         except Exception as ex:
             bad("FlowFields.warp_image", f"raised {type(ex).__name__}: {ex}", exc=type(ex).__name__, frm=a)
+    # the functional forms with their broadcasting rules: one flow field (unbatched, or a batch of one) displaces the sampling points of
+    # every image of a batch; sample_flow / warp_grid read one field at several point sets
+    try:
+        import deepali.core.functional as U_
+
+        ckey = "cube_corners" if g.align_corners() else "cube"
+        aa = torch.tensor([0.7, -1.3, 0.4][:D], dtype=torch.float64)
+        wv = torch.tensor(fl(F(c["w"])), dtype=torch.float64)
+        pw = g.index_to_world(g.coords(normalize=False).float()).to(torch.float64)
+        ramp = (pw @ aa + 2.0).float()
+        data2 = torch.stack([ramp.unsqueeze(0), 2 * ramp.unsqueeze(0)])  # two images
+        coords = g.coords(align_corners=g.align_corners())
+        fvec = torch.tensor(reps[ckey], dtype=torch.float32).expand(*g.shape, D).contiguous()  # (..., X, D)
+        idx = g.world_to_index((pw + wv).reshape(-1, D).float(), decimals=None)
+        nn_ = torch.tensor(list(g.size()), dtype=torch.float32)
+        ins = ((idx >= 0.01) & (idx <= nn_ - 1.01)).all(dim=-1).reshape(g.shape)
+        expv = ((pw + wv) @ aa + 2.0)
+        for form, cg, fl_arg in (("unbatched grid and flow", coords, fvec), ("batch-1 flow", coords.unsqueeze(0), fvec.unsqueeze(0)),
+                                 ("batched grid, unbatched flow", coords.unsqueeze(0).expand(2, *coords.shape), fvec),
+                                 ("batched grid, batch-1 flow", coords.unsqueeze(0).expand(2, *coords.shape), fvec.unsqueeze(0))):
+            out = U_.warp_image(data2, cg, flow=fl_arg, mode="linear", padding="border", align_corners=g.align_corners()).to(torch.float64)
+            if tuple(out.shape) != (2, 1) + tuple(g.shape):
+                bad("warp_image", f"({form}) returns shape {tuple(out.shape)}", form=form, what="shape")
+                continue
+            for it, fac in ((0, 1.0), (1, 2.0)):
+                if int(ins.sum()) > 0 and float((out[it, 0] - fac * expv)[ins].abs().max()) > 3e-4 * max(1.0, float(expv.abs().max())) * fac:
+                    bad("warp_image", f"({form}) image {it} differs from ramp(x + w) by {float((out[it, 0] - fac * expv)[ins].abs().max()):.3g}", form=form, item=it)
+                    break
+        # one constant field read at two point sets, and added to them
+        fld = const_field(g, reps[ckey])
+        pts2 = torch.stack([coords.reshape(-1, D)[:5], coords.reshape(-1, D)[-5:]])
+        for form, pts_ in (("(N, M, D) points, one field", pts2), ("(1, M, D) points", pts2[:1])):
+            u_ = U_.sample_flow(fld, pts_, align_corners=g.align_corners())
+            if tuple(u_.shape) != tuple(pts_.shape) or max_err(u_ - torch.tensor(reps[ckey]), 0 * u_) > TOL * scale:
+                bad("sample_flow", f"({form}) does not return the constant vector at every point", form=form)
+        cg1 = coords.unsqueeze(0)
+        y_ = U_.warp_grid(fld, cg1, align_corners=g.align_corners())
+        if tuple(y_.shape) != tuple(cg1.shape) or max_err(y_ - cg1, torch.tensor(reps[ckey]).expand_as(cg1)) > TOL * scale:
+            bad("warp_grid", "does not add the constant vector to every grid point")
+    except Exception as ex:
+        bad("warp_image", f"functional forms raised {type(ex).__name__}: {str(ex)[:120]}", exc=type(ex).__name__)
     # batch with per-field grids
     try:
         if tuple(g.shape) == tuple(g2.shape):
